@@ -108,7 +108,9 @@ check("C15", "model_checking",
       "completes only after task b's future resolved), every error position, and <=2 source-Pending deviations. "
       "states = executions (distinct choice sequences); transitions = choice points. Multi-threaded implementation (config B2): "
       "seq_join / seq_try_join_all / parallel_join with n <= 4 (5) items spawned as real tasks, window 1..4, every single in-window "
-      "dependency in both directions, yields, error at the last item or with window 1, every schedule within the preemption bound.",
+      "dependency in both directions, yields, error at the last item or with window 1, a source stream that is Pending once before "
+      "every item, every schedule within the preemption bound. Window occupancy is checked from both sides at every Pending return "
+      "of the single-threaded stream: at least min(w, outstanding) and never more than w tasks in flight.",
       [{"name": "seqjoin", "config": "A", "test": "verif::c15::run",
         "require": {"any": {"max_distinct_completion_orders": 20, "window_checks": 100}}},
        {"name": "multi-thread", "config": "B2", "test": "verif::c15s::run", "workers": {"quick": 16, "thorough": 16},
